@@ -298,6 +298,26 @@ class SymB:
         now = _flat(arr)
         self.rec.obligation(label, z3.BoolVal(len(now) == len(snap) and all(a is b for a, b in zip(snap, now))))
 
+    def ufun(self, fname, x):
+        """value of an *uninterpreted* real function at the symbolic point x (list of SR for several
+        arguments): a fresh variable '<fname>#k' per distinct argument, with congruence constraints"""
+        c = sc.cur()
+        xs = x if isinstance(x, (list, tuple)) else [x]
+        args = [sc.simp(sc._lift(t).e) for t in xs]
+        key = (fname, tuple(a.sexpr() for a in args))
+        tab = c.data.setdefault("ufun", {})
+        cnt = c.data.setdefault("ufun_calls", {})
+        k = cnt.get(fname, 0)               # one index per CALL (keeps symbolic and concrete replay in step)
+        cnt[fname] = k + 1
+        if key in tab:
+            return tab[key][1]
+        v = z3.Real(f"{fname}#{k}")
+        for kk, (a2, v2) in tab.items():
+            if kk[0] == fname:
+                c.pc.append(z3.Implies(z3.And(*[a == b for a, b in zip(args, a2)]), v == v2.e))
+        tab[key] = (args, SR(v))
+        return tab[key][1]
+
     def fork(self, n, tag="choice"):
         """nondeterministic choice among range(n) (explored exhaustively)"""
         c = sc.cur()
@@ -419,6 +439,21 @@ class ConcB:
         now = np.array([complex(v) for v in _flat(arr)])
         if now.shape != snap.shape or not np.array_equal(now, snap):
             self.failed.append(label)
+
+    def ufun(self, fname, x):
+        """replay of an uninterpreted function: the k-th distinct argument gets the model value of '<fname>#k'"""
+        xs = [float(t) for t in (x if isinstance(x, (list, tuple)) else [x])]
+        tab = self.__dict__.setdefault("_ufun", {})
+        cnt = self.__dict__.setdefault("_ufun_calls", {})
+        k = cnt.get(fname, 0)
+        cnt[fname] = k + 1
+        lst = tab.setdefault(fname, [])
+        for (a2, v2) in lst:
+            if all(abs(a - b) <= 1e-9 * max(abs(a), abs(b), 1e-300) for a, b in zip(xs, a2)):
+                return v2
+        v = np.float64(self._get(f"{fname}#{k}"))
+        lst.append((xs, v))
+        return v
 
     def fork(self, n, tag="choice"):
         k = self.model.get("__choices__", [])
